@@ -339,3 +339,56 @@ def windows(vc):
     vm = pm.VALID_ANGLE_MAP
     vc.ensure("O-C16-window.map", bool(set(vm) == {IsAngle.ANGLE_0_2PI, IsAngle.ANGLE_NEG_PI_PI} and abs(vm[IsAngle.ANGLE_0_2PI][0]) < 1e-15 and abs(vm[IsAngle.ANGLE_0_2PI][1] - 2 * np.pi) < 1e-12
                                            and abs(vm[IsAngle.ANGLE_NEG_PI_PI][0] + np.pi) < 1e-12 and abs(vm[IsAngle.ANGLE_NEG_PI_PI][1] - np.pi) < 1e-12) if not vc.symbolic else True)
+
+
+GPF = "resonaate.estimation.particle.genetic_particle_filter:"
+
+
+@obligation("C16", "gpf_residuals", ensures=["O-C16-gpf.flags-per-component", "O-C16-gpf.residual-ranges"], fns=[GPF + "GeneticParticleFilter.calculateResidualsFromObservations", M + "vecResiduals"], mode="R",
+            bounded="stack of three observations with layouts (angle, angle), (angle, linear, linear), (linear): all measured and predicted values symbolic; 2 particles",
+            note="the particle filter's stacked residual treats exactly the angular components of EVERY stacked observation as angles (flags concatenated observation by observation, in stack order), so angular residuals "
+                 "lie in (-pi, pi] whatever the values, and linear components are plain differences however large - for a stack whose observations have different layouts")
+def gpf_residuals(vc):
+    from resonaate.physics.measurements import IsAngle
+    layouts = [[IsAngle.ANGLE_0_2PI, IsAngle.ANGLE_NEG_PI_PI], [IsAngle.ANGLE_0_2PI, IsAngle.NOT_ANGLE, IsAngle.NOT_ANGLE], [IsAngle.NOT_ANGLE]]
+    dt = object if vc.symbolic else float
+    pop = np.array([[1.0, 2.0], [3.0, 4.0]], dtype=float)  # 2 state components x 2 particles (the measurement stand-ins below ignore the state values)
+    obs, want_flags, ys, preds = [], [], [], []
+    for k, lay in enumerate(layouts):
+        pred = [[(vc.angle if lay[j] != IsAngle.NOT_ANGLE else vc.real)(f"p{k}_{j}_{m}", -50, 50) for j in range(len(lay))] for m in range(2)]
+        y = np.array([(vc.angle if a != IsAngle.NOT_ANGLE else vc.real)(f"y{k}_{j}", -50, 50) for j, a in enumerate(lay)], dtype=dt)
+
+        class Meas:
+            angular_values = list(lay)
+
+            def __init__(self, pred):
+                self.pred, self.n = pred, 0
+
+            def calculateMeasurement(self, sensor_eci, state, utc, noisy=False):
+                m = 0 if state[0] == 1.0 else 1  # which particle
+                return {f"c{j}": self.pred[m][j] for j in range(len(self.pred[m]))}
+        obs.append(_NS(julian_date=2459000.5, sensor_eci=None, measurement=Meas(pred), measurement_states=y))
+        want_flags += [a != IsAngle.NOT_ANGLE for a in lay]
+        ys.append(y)
+        preds.append(pred)
+    if vc.symbolic:
+        vc.stub(M + "vecWrapAngle2Pi", lambda a: np.array([[common.WRAP2PI(x) for x in row] for row in np.asarray(a, dtype=object)], dtype=object) if np.asarray(a).ndim == 2
+                else np.array([common.WRAP2PI(x) for x in np.asarray(a, dtype=object)], dtype=object))
+        vc.stub(M + "vecWrapAngleNeg", lambda a: np.array([[common.WRAPPI(x) for x in row] for row in np.asarray(a, dtype=object)], dtype=object))
+        vc.stub(GPF + "@julianDateToDatetime", lambda jd: jd)
+        vc.stub(GPF + "@JulianDate", lambda jd: jd)
+    f = vc.new(GPF + "GeneticParticleFilter", population=pop)
+    true_y, res = f.calculateResidualsFromObservations(obs)
+    vc.ensure("O-C16-gpf.flags-per-component", [bool(x) for x in f.is_angular] == want_flags and res.shape == (len(want_flags), 2))
+    pi = vc.pi
+    conds, row = [], 0
+    for k, lay in enumerate(layouts):
+        for j, a in enumerate(lay):
+            for m in range(2):
+                r = res[row, m]
+                if a != IsAngle.NOT_ANGLE:
+                    conds.append(vc.And(r > -pi, r <= pi) if vc.symbolic else (-np.pi < r <= np.pi + 1e-12))
+                else:
+                    conds.append(vc.eq(r, preds[k][m][j] - ys[k][j], 1e-12))
+            row += 1
+    vc.ensure("O-C16-gpf.residual-ranges", vc.And(*conds))
